@@ -148,6 +148,11 @@ func runC12(r *Run, p *Prog) {
 					e, pp := st[replyF.Error], st[replyF.Parameters]
 					okM = len(e) == 1 && strip(T.T(e[0])) == nameP && len(pp) == 1 && strip(T.T(pp[0])) == parP && len(st[replyF.Continues]) == 0
 					detail = fmt.Sprintf("Error=%v Parameters=%v", termsOf(T, e), termsOf(T, pp))
+				} else if e, pp, cont, found := replyLiteralBelow(T, isW, c, 0); found {
+					// the literal is built by a function of the write chain from its own parameters
+					// (`c.replyError(ctx, name, parameters)`): the members are the arguments passed here
+					okM = e == nameP && pp == parP && !cont
+					detail = fmt.Sprintf("Error=%s Parameters=%s (literal built in the callee), continues set=%v", e, pp, cont)
 				}
 				r.Ob("X1", shortName(f), "the reply carries the name and the parameters unchanged", in.Pos(), okM, detail)
 			}
@@ -493,4 +498,52 @@ func stdErrorHelperOK(p *Prog, T *Terms, cg *CallGraph, wfn map[*ssa.Function]bo
 		return false, fmt.Sprintf("%d reply literals on the paths of Reply%s, exactly one expected", n, E)
 	}
 	return okH, detail
+}
+
+// replyLiteralBelow: the callee of the write-chain call c builds the reply literal; returns the terms - in the caller's
+// vocabulary - of what its Error and Parameters members are set to, when they are parameters of the callee (possibly
+// through a further such callee), and whether Continues is stored.
+func replyLiteralBelow(T *Terms, isW func(ssa.Instruction) bool, c *ssa.CallCommon, depth int) (string, string, bool, bool) {
+	t := staticTarget(c)
+	if t == nil || depth > 2 || len(t.Blocks) == 0 {
+		return "", "", false, false
+	}
+	argOf := func(v ssa.Value) string {
+		for i, prm := range t.Params {
+			if v == ssa.Value(prm) && i < len(c.Args) {
+				return strip(T.T(c.Args[i]))
+			}
+		}
+		return "?" + strip(T.T(v))
+	}
+	for _, b := range t.Blocks {
+		for _, in := range b.Instrs {
+			if !isW(in) {
+				continue
+			}
+			ic := in.(ssa.CallInstruction).Common()
+			for _, a := range ic.Args {
+				if al := unwrapAlloc(a); al != nil {
+					st := fieldStores(al)
+					e, pp := st[replyF.Error], st[replyF.Parameters]
+					if len(e) == 1 && len(pp) == 1 {
+						return argOf(e[0]), argOf(pp[0]), len(st[replyF.Continues]) > 0, true
+					}
+				}
+			}
+			if e, pp, cont, ok := replyLiteralBelow(T, isW, ic, depth+1); ok {
+				// translate the inner callee's argument terms: they are terms of t; only plain parameters map on
+				tr := func(s string) string {
+					for i, prm := range t.Params {
+						if s == "param:"+prm.Name() && i < len(c.Args) {
+							return strip(T.T(c.Args[i]))
+						}
+					}
+					return "?" + s
+				}
+				return tr(e), tr(pp), cont, true
+			}
+		}
+	}
+	return "", "", false, false
 }
